@@ -51,7 +51,7 @@ def generate(rng, tier):
                 cases.append(_case("D1", gen.rand_timeline(rng, "K0", maxn=8, span=30)))
         for _ in range(200 if tier == "thorough" else 25):
             # the same, hours or days away from the origin
-            off = rng.choice(gen.FAR_SECONDS) * REGIMES[regime]["scale"]
+            off = rng.choice(gen.FAR_SECONDS if regime == "K1" else gen.FAR_SECONDS[:4]) * REGIMES[regime]["scale"]   # (doubled and quartered ticks must fit a double)
             cases.append(_case(regime, gen.shift(gen.rand_timeline(rng, regime, maxn=6), off)))
     return {"cases": cases, "meta": {"exhaustive": True, "small_scope_max_segments": k,
                                      "sizes": gen.stats(cases, {"n_segments": lambda c: len(c["segs"])})}}
@@ -110,6 +110,9 @@ def run(case):
             lo_ = min([s_.start for s_ in members] + [0]) - 5
             hi_ = max([s_.end for s_ in members] + [0]) + 5
             open_ = Timeline(list(members) + [Segment(hi_, inf), Segment(-inf, lo_), Segment(-inf, inf)])
+            nan = float("nan")
+            assert open_.overlapping(nan) == [] and list(open_.overlapping_iter(nan)) == [] and t.overlapping(nan) == [], \
+                "overlapping(nan) is not empty (no segment has start <= nan <= end)"
             for tq in (inf, -inf, hi_, lo_, hi_ + 1e300, -1e300, (lo_ + hi_) / 2):
                 want = [s_ for s_ in open_ if s_.start <= tq <= s_.end]
                 assert open_.overlapping(tq) == want and list(open_.overlapping_iter(tq)) == want, \
